@@ -335,3 +335,19 @@ SymMapped.__pyvc_getitem__ = _sm_getitem
 SymMapped.key_le = _sm_key_le
 SymMapped.__pyvc_getslice__ = lambda self, ex, sl, st, node: [Val(self, st)]
 SymMapped.__pyvc_truthy_st__ = lambda self, ex, st: _sm_truthy_setup(self, ex, st)
+
+
+class SymEnumerated:
+    """enumerate(seq) over a symbolic-length sequence: element k is (k, seq[k])."""
+
+    __pyvc_symbolic_iter__ = True
+
+    def __init__(self, models, seq):
+        self.models, self.seq = models, seq
+        if isinstance(seq, V.SSeq):
+            self.n = V.z3int(V.v_len(seq))
+        else:
+            self.n = getattr(seq, "n", None)
+
+    def __pyvc_elem__(self, k):
+        return (V.SInt(V.z3int(k)) if not isinstance(k, int) else k, self.models.seq_elem(self.seq, V.z3int(k)))
